@@ -136,10 +136,15 @@ def gen_configs(ctx):
         c.update(kw)
         return c
     if ctx.quick:
-        # strategy all: a chain of two non-fresh iterations (the seed schedule must survive a resume
-        # between them); strategy latest: one non-fresh iteration
-        return [(base("all", 3, fresh=[True, False, False]), "light", 2, False, True),
-                (base("latest", 2, n_samples=[0, 1], fresh=[True, False]), "light", 2, False, True)]   # MAP, then MGVI
+        # The model changes between iterations in both configurations: initial_position=None (all
+        # start values are drawn in iteration 0), the likelihood domain grows at a later iteration (new
+        # latent keys are drawn by _normal_initialize then), and sampling controller / KL minimiser
+        # differ per iteration.  Strategy all: also a chain of two non-fresh iterations (the seed
+        # schedule must survive a resume between them); strategy latest: MAP, then MGVI.
+        return [(base("all", 3, fresh=[True, False, False], init_none=True, grow_at=2,
+                      newton_limit=[2, 3, 1], cg_limit=[3, 2, 3]), "light", 2, False, True),
+                (base("latest", 2, n_samples=[0, 1], fresh=[True, False], init_none=True, grow_at=1,
+                      newton_limit=[3, 2], cg_limit=[2, 3]), "light", 2, False, True)]
     return [
         (base("all", 3, n_samples=[1, 2, 1]), "full", 6, True, True),
         (base("latest", 3, n_samples=[1, 2, 1], fresh=[True, False, False]), "full", 6, True, True),
@@ -150,6 +155,13 @@ def gen_configs(ctx):
         (base("latest", 2, n_samples=0, transition=False), "light", 1, False, True),    # MAP only
         (base("all", 3, n_samples=[0, 1, 0], transition=False), "light", 1, False, True),  # MAP, MGVI, MAP
         (base("latest", 3, n_samples=[1, 0, 1]), "light", 1, False, True),              # MGVI, MAP, MGVI in place
+        # the model changes between iterations: domain growth (once / twice, start values given or
+        # drawn), changing numbers of samples, changing minimisers
+        (base("all", 4, init_none=True, grow_at=2, n_samples=[1, 1, 2, 1], newton_limit=[1, 3, 2, 2], cg_limit=[2, 3, 3, 2]), "light", 3, True, True),
+        (base("latest", 4, init_none=True, grow_at=1, grow2_at=3, n_samples=[1, 2, 1, 1], newton_limit=[2, 1, 3, 2]), "light", 3, False, True),
+        (base("latest", 3, grow_at=2, n_samples=[0, 1, 2], cg_limit=[3, 1, 2]), "light", 2, False, True),
+        (base("all", 3, init_none=True, grow_at=int(rng.integers(1, 3)), fresh=[True, bool(rng.integers(0, 2)), bool(rng.integers(0, 2))],
+              transition=False, geovi=True), "kill", 2, False, True),
     ]
 
 
